@@ -18,11 +18,12 @@ func init() {
 	register(&Check{
 		ID:  "C11",
 		Run: runC11,
-		Explanation: "Decides the finite tables the object writer depends on: (R1 exhaustiveness) the type switches of appendPDFObject, writeObjectGeneric and Dict.PDFString / Array.PDFString cover every implementor of types.Object (enumerated through go/types) except those in the documented not-serialisable-here table; in appendPDFObject the clauses for IndirectRef, Name, StringLiteral and HexLiteral delegate to the kind's own PDFString (so both writer paths emit the same token) — for IndirectRef an own implementation must read both ObjectNumber and GenerationNumber; (R2 separators) the no-space clause of dictObjectNeedsSpace / arrayObjectNeedsSpace contains only kinds whose token starts with a delimiter ('<<' '[' '/' '(' '<', ISO 32000-1 7.2.2) and never Integer, Float, Boolean, IndirectRef or null; the Sprintf formats in Dict.PDFString put a space between key and value for exactly those regular-start kinds; (R3 name delimiters) needsHexSequence escapes every delimiter character ( ) < > [ ] { } / % and # — extracted from its comparison constants or constant membership string — and every byte outside '!'..'~'; (R2, arrays) in Array.PDFString every type-switch clause that appends its element without the separator value is a self-delimiting kind — a regular-start kind (number, boolean, reference, null) written without separator fuses with the element before it; (R4 reader side) the string-literal scanner balancedParenthesesPrefix tracks whether a backslash is itself escaped: its escape flag is turned on only by a backslash seen in the not-escaped state (or it counts backslash parity), otherwise an even run of backslashes before a parenthesis is mis-scanned and a written string does not parse back. NOT decided: the round trip itself (number formatting, string escaping of particular bytes is C12).",
+		Explanation: "Decides the finite tables the object writer depends on: (R1 exhaustiveness) the type switches of appendPDFObject, writeObjectGeneric and Dict.PDFString / Array.PDFString cover every implementor of types.Object (enumerated through go/types) except those in the documented not-serialisable-here table; in appendPDFObject the clauses for IndirectRef, Name, StringLiteral and HexLiteral delegate to the kind's own PDFString (so both writer paths emit the same token) — for IndirectRef an own implementation must read both ObjectNumber and GenerationNumber; (R2 separators) the no-space clause of dictObjectNeedsSpace / arrayObjectNeedsSpace contains only kinds whose token starts with a delimiter ('<<' '[' '/' '(' '<', ISO 32000-1 7.2.2) and never Integer, Float, Boolean, IndirectRef or null; the Sprintf formats in Dict.PDFString put a space between key and value for exactly those regular-start kinds; (R3 name delimiters) needsHexSequence escapes every delimiter character ( ) < > [ ] { } / % and # — extracted from its comparison constants or constant membership string — and every byte outside '!'..'~'; (R2, arrays) in Array.PDFString every type-switch clause that appends its element without the separator value is a self-delimiting kind — a regular-start kind (number, boolean, reference, null) written without separator fuses with the element before it; (R4 reader side) the string-literal scanner balancedParenthesesPrefix tracks whether a backslash is itself escaped: its escape flag is turned on only by a backslash seen in the not-escaped state (or it counts backslash parity), otherwise an even run of backslashes before a parenthesis is mis-scanned and a written string does not parse back. (R2, Dict.PDFString) the text appended for an entry is evaluated symbolically per clause of the entry type switch — string concatenation, fmt.Sprintf with a constant %s/%v format, \u03c6 values resolved by the clause and by nil tests on the switched value — and the first character after the encoded key must be a space or the start of a value kind that begins with a delimiter (independent of how the clauses are laid out: one Sprintf per clause or one separator variable and a single append). (R5) strconv.FormatFloat / AppendFloat in Float.PDFString and appendPDFObject use 'f' notation and a precision that is provably at least 12 or -1 (followed through \u03c6, min, max): the property compares reals after rounding to twelve fractional digits. NOT decided: the round trip itself (string escaping of particular bytes is C12).",
 		Rules: []string{
 			"C11.R1 TABLE: type-switch exhaustiveness over types.Object implementors; delegation to PDFString",
 			"C11.R2 TABLE: separator tables vs self-delimiting kinds",
 			"C11.R3 TABLE: name delimiter set and printable range",
+			"C11.R5 real precision: 'f' notation with at least twelve fractional digits in both serialisers",
 		},
 		Assumptions: []string{"ISO 32000-1 7.2.2 delimiter set: ( ) < > [ ] { } / %"},
 		Technique:   "type-switch and comparison-constant table extraction from SSA; implementor enumeration through go/types; sibling agreement between the two serialiser paths",
@@ -31,11 +32,12 @@ func init() {
 	register(&Check{
 		ID:  "C12",
 		Run: runC12,
-		Explanation: "Decides the finite tables and first-write shape of the string/name codecs: (R1) Escape's byte->letter table and escaped's letter->byte table are mutually inverse on {LF<->n, CR<->r, TAB<->t, BS<->b, FF<->f}; Escape treats backslash and both parentheses as special; for every special byte the first thing written after the match is a backslash, unconditionally (no pass-through of pre-escaped sequences), and for non-special bytes exactly the byte itself; escaped passes '(' and ')' through; (R2) name encoding: EncodeName writes '#' followed by a two-digit hex rendering of exactly one byte (encoding/hex on a 1-byte slice, or a %02x format) for every byte needsHexSequence selects (delimiter set as in C11.R3) and DecodeName consumes exactly two characters after '#' (slice s[i+1:i+3], i += 2); (R3 byte exactness) Escape, Unescape, escaped, EncodeName and DecodeName never write an integer to their output as a string or rune (WriteRune / WriteString(string(int)) is UTF-8 encoding: a byte >= 0x80 would become two bytes), and every non-nil result of Unescape is its accumulation buffer's Bytes() without a further call that could drop or rewrite bytes depending on the content (Unescape also decodes binary strings). NOT decided: octal sequences, CR/LF interactions, UTF-16 (C13), the quantified round trip.",
+		Explanation: "Decides the finite tables and first-write shape of the string/name codecs: (R1) Escape's byte->letter table and escaped's letter->byte table are mutually inverse on {LF<->n, CR<->r, TAB<->t, BS<->b, FF<->f}; Escape treats backslash and both parentheses as special; for every special byte the first thing written after the match is a backslash, unconditionally (no pass-through of pre-escaped sequences), and for non-special bytes exactly the byte itself; escaped passes '(' and ')' through; (R2) name encoding: EncodeName writes '#' followed by a two-digit hex rendering of exactly one byte (encoding/hex on a 1-byte slice, or a %02x format) for every byte needsHexSequence selects (delimiter set as in C11.R3) and DecodeName consumes exactly two characters after '#' (slice s[i+1:i+3], i += 2); (R3 byte exactness) Escape, Unescape, escaped, EncodeName and DecodeName never write an integer to their output as a string or rune (WriteRune / WriteString(string(int)) is UTF-8 encoding: a byte >= 0x80 would become two bytes), and every non-nil result of Unescape is its accumulation buffer's Bytes() without a further call that could drop or rewrite bytes depending on the content (Unescape also decodes binary strings). (R4) in EncodeName every path from needsHexSequence(ch) == true to the next byte's test or to a return writes the '#' form: the escape decision is a function of the byte alone (a look-ahead or 'already encoded' exception makes two names share one encoding). NOT decided: octal sequences, CR/LF interactions in Escape, UTF-16 (C13), the quantified round trip.",
 		Rules: []string{
 			"C12.R1 TABLE agreement: Escape vs escaped; backslash-first shape",
 			"C12.R2 TABLE/shape: EncodeName two-digit hex, DecodeName consumes two digits",
 			"C12.R3 byte exactness: no integer->string conversions in the codecs; Unescape returns its buffer unprocessed",
+			"C12.R4 MPT: a byte needsHexSequence reports is always written in '#' form (decision per byte)",
 		},
 		Assumptions: []string{"encoding/hex renders one byte as two digits"},
 		Technique:   "switch-table extraction from SSA comparison chains and phi edges; first-write path exploration from the match edge; callee/format classification",
@@ -225,52 +227,15 @@ func runC11(c *Ctx) {
 			r.OK("C11.R2", fid, "no-space-kinds", p.Pos(fn.Pos()), "no-space kinds "+strings.Join(noSpace, ",")+" all start with a delimiter", true)
 		}
 	}
-	// Dict.PDFString formats
-	if fn := p.Func("pkg/pdfcpu/types.(Dict).PDFString"); fn != nil {
-		bad := ""
-		n := 0
-		eachInstr(fn, func(_ *ssa.BasicBlock, _ int, i ssa.Instruction) {
-			call, ok := i.(*ssa.Call)
-			if !ok {
-				return
-			}
-			if _, ref := callRef(call); ref != "fmt.Sprintf" {
-				return
-			}
-			f, ok := constString(call.Call.Args[0])
-			if !ok || !strings.HasPrefix(f, "/%s") {
-				return
-			}
-			// which kind? the PDFString receiver among the variadic args
-			kind := ""
-			for _, e := range variadicElems(call) {
-				if mi, ok := e.(*ssa.MakeInterface); ok {
-					if pc, ok := mi.X.(*ssa.Call); ok {
-						if _, pr := callRef(pc); strings.HasSuffix(pr, ".PDFString") && len(pc.Call.Args) > 0 {
-							kind = typeNameOf(pc.Call.Args[0].Type())
-						}
-					}
-				}
-			}
-			if kind == "" {
-				return
-			}
-			n++
-			hasSpace := strings.HasPrefix(f, "/%s ")
-			if !selfDelimiting[kind] && !hasSpace {
-				bad = kind + " uses format " + f
-			}
-		})
-		if bad != "" {
-			r.Bad("C11.R2", FuncID(fn), "formats", p.Pos(fn.Pos()), "Dict.PDFString writes a regular-start kind without separator: "+bad)
-		} else if n > 0 {
-			r.OK("C11.R2", FuncID(fn), "formats", p.Pos(fn.Pos()), fmt.Sprintf("%d entry formats: regular-start kinds have a space after the key", n), true)
-		}
-	}
+	// Dict.PDFString: what follows the key, per kind of value (symbolic evaluation of the appended text; round 3 of seeding)
+	checkDictEntrySeparators(c, selfDelimiting)
 	// Array.PDFString: element separators (round 2 of seeding)
 	checkArraySeparators(c, selfDelimiting)
 	// ---- R3
 	checkNameDelimiters(c, "C11.R3")
+	// ---- R5
+	r.MinInst["C11.R5"] = 2
+	checkRealPrecision(c)
 }
 
 // checkNameDelimiters: needsHexSequence covers the delimiter set and the non-printable range.
@@ -534,6 +499,8 @@ func runC12(c *Ctx) {
 	}
 	// ---- R2
 	checkNameDelimiters(c, "C12.R2")
+	r.MinInst["C12.R4"] = 1
+	checkNameEscapeDecision(c, "C12.R4")
 	r.MinInst["C12.R3"] = 5
 	checkByteExactCodecs(c)
 	if fn := p.Func("pkg/pdfcpu/types.EncodeName"); fn == nil {
@@ -938,4 +905,91 @@ func checkArraySeparators(c *Ctx, selfDelimiting map[string]bool) {
 	default:
 		r.OK("C11.R2", fid, "element separators", p.Pos(fn.Pos()), fmt.Sprintf("%d clauses; written without separator: %s (all start with a delimiter)", n, strings.Join(dedupStrings(noSep), ",")), true)
 	}
+}
+
+// ---------------- C12.R4 (round 3 of seeding): the escape decision is per byte ----------------
+
+// checkNameEscapeDecision: in EncodeName, once needsHexSequence(ch) said yes, every path to the next byte
+// (or to a return) writes the '#' form. A second condition that lets such a byte through raw (look-ahead,
+// position, "already encoded" heuristics) makes the encoder non-injective: DecodeName reads any '#xx' as one byte.
+func checkNameEscapeDecision(c *Ctx, rule string) {
+	p, r := c.P, c.R
+	fn := p.Func("pkg/pdfcpu/types.EncodeName")
+	if fn == nil {
+		r.Bad(rule, "pkg/pdfcpu/types.EncodeName", "anchor", "", "UNRESOLVED-ANCHOR")
+		return
+	}
+	var preds []*ssa.Call
+	hashBlocks := map[*ssa.BasicBlock]bool{}
+	eachInstr(fn, func(b *ssa.BasicBlock, _ int, i ssa.Instruction) {
+		call, ok := i.(*ssa.Call)
+		if !ok {
+			return
+		}
+		_, ref := callRef(call)
+		if ref == "pkg/pdfcpu/types.needsHexSequence" {
+			preds = append(preds, call)
+		}
+		if strings.HasSuffix(ref, ".WriteByte") && len(call.Call.Args) == 2 {
+			if k, ok := constInt(call.Call.Args[1]); ok && k == '#' {
+				hashBlocks[b] = true
+			}
+		}
+		if strings.HasSuffix(ref, ".WriteString") || ref == "fmt.Fprintf" {
+			for _, a := range call.Call.Args {
+				if s, ok := constString(a); ok && strings.HasPrefix(s, "#") {
+					hashBlocks[b] = true
+				}
+			}
+		}
+	})
+	pos := p.Pos(fn.Pos())
+	if len(preds) == 0 || len(hashBlocks) == 0 {
+		r.Bad(rule, FuncID(fn), "escape decision", pos, "UNRESOLVED-ANCHOR: the needsHexSequence test or the '#' write was not found in EncodeName")
+		return
+	}
+	predBlocks := map[*ssa.BasicBlock]bool{}
+	for _, pc := range preds {
+		predBlocks[pc.Block()] = true
+	}
+	n := 0
+	for _, pc := range preds {
+		for _, a := range aliasesOf(pc) {
+			for _, e := range condEdges(a, true) {
+				n++
+				// blocks reachable from the yes-edge without passing a '#' write
+				seen := map[*ssa.BasicBlock]bool{}
+				work := []*ssa.BasicBlock{e.From.Succs[e.Succ]}
+				bad := ""
+				for len(work) > 0 && bad == "" {
+					b := work[len(work)-1]
+					work = work[:len(work)-1]
+					if seen[b] || hashBlocks[b] {
+						continue
+					}
+					seen[b] = true
+					if predBlocks[b] {
+						bad = "the next byte's test at " + p.Pos(lastPos(b))
+						break
+					}
+					if len(b.Instrs) > 0 {
+						if _, ok := b.Instrs[len(b.Instrs)-1].(*ssa.Return); ok {
+							bad = "the return at " + p.Pos(b.Instrs[len(b.Instrs)-1].Pos())
+							break
+						}
+					}
+					work = append(work, b.Succs...)
+				}
+				if bad != "" {
+					r.Bad(rule, FuncID(fn), "escape decision", p.Pos(pc.Pos()), "a byte that needsHexSequence reports can reach "+bad+" without the '#' form having been written: the decision depends on more than the byte (context, position), so two different names get the same encoding and DecodeName cannot give both back")
+					return
+				}
+			}
+		}
+	}
+	if n == 0 {
+		r.Bad(rule, FuncID(fn), "escape decision", pos, "UNRESOLVED-ANCHOR: the result of needsHexSequence does not decide a branch")
+		return
+	}
+	r.OK(rule, FuncID(fn), "escape decision", pos, "every path from needsHexSequence(ch) == true to the next byte or a return writes '#': the decision is a function of the byte alone", true)
 }
